@@ -10,11 +10,14 @@ tools/genconsts.sh || rc=1
 # 2. shared Coq library
 ( cd coq/lib && { [ -f Makefile ] || coq_makefile -f _CoqProject -o Makefile >/dev/null 2>&1; } && timeout 3000 make -j16 >build.log 2>&1 ) || { echo "coq/lib build failed"; tail -20 coq/lib/build.log; rc=1; }
 # 3. every domain: proofs, extraction, model binary (in parallel)
+# two passes: a domain may import another domain's compiled model
+for pass in 1 2; do
 for d in $(ls coq | grep -v -e '^lib$' -e '^gen$'); do
   [ -f coq/$d/_CoqProject ] || continue
-  ( tools/build_domain.sh $d || echo "domain $d: build problems (see coq/$d/build.log)" ) &
+  ( tools/build_domain.sh $d >/dev/null 2>&1 || { [ $pass = 2 ] && echo "domain $d: build problems (see coq/$d/build.log)"; } ) &
 done
 wait
+done
 # 4. Go harnesses
 cp /repo/go.sum harness/go.sum 2>/dev/null
 mkdir -p build
